@@ -178,6 +178,13 @@ def _cols(c):
 
 
 def observe(m):
+    try:
+        return _observe(m)
+    except Exception as exc:  # only objects the class should never reach (e.g. kind contradicting the counts)
+        return "observing-raised:" + exc_class(exc)
+
+
+def _observe(m):
     return (
         f"kind={KINDCODE.get(m.kind, '?')};na={'-' if m.norba is None else int(m.norba)};"
         f"nb={'-' if m.norbb is None else int(m.norbb)};"
@@ -776,10 +783,12 @@ def _unjs(ops):
 def search(ctx):
     rng = ctx.rng
     mult = 4 if ctx.escalated else 1
-    items = [("mo", _perturb(rng, rand_seq(rng, ctx.n(8, 16)))) for _ in range(ctx.n(15000, 100000) * mult)]
+    # shortest histories first, so that the witness reported for a signature is a short one
+    C, A, R = constructs(), assignments(), reassignments()
+    items = [("mo", [c, r]) for c in C for r in R]
     if ctx.escalated or ctx.thorough:
-        C, A = constructs(), assignments()
         items += [("mo", [c, a1, a2]) for c in C for a1 in A for a2 in A]
+    items += [("mo", _perturb(rng, rand_seq(rng, ctx.n(8, 16)))) for _ in range(ctx.n(15000, 100000) * mult)]
     items += [("shell", rand_shell_new(rng)[1]) for _ in range(ctx.n(4000, 60000) * mult)]
     with mp.get_context("fork").Pool(min(14, mp.cpu_count())) as pool:
         results = pool.map(_search_work, items, chunksize=200)
